@@ -133,6 +133,16 @@ func init() {
 		}
 		return nil
 	}
+	intrinsics[ndPkg+"Bound"] = func(e *Exec, _ *frame, args []Value) Value {
+		k := args[0].(Str).s
+		v := int(args[1].(int64))
+		if v > e.bounds[k] {
+			e.bounds[k] = v
+		}
+		return nil
+	}
+	intrinsics[ndPkg+"Thorough"] = func(e *Exec, _ *frame, args []Value) Value { return e.w.tier == "thorough" }
+	intrinsics[ndPkg+"TempRoot"] = func(e *Exec, _ *frame, args []Value) Value { return mkStr("/vfs") }
 	intrinsics[ndPkg+"Symbolic"] = func(e *Exec, _ *frame, args []Value) Value { return true }
 	intrinsics[ndPkg+"IsConcrete"] = func(e *Exec, _ *frame, args []Value) Value {
 		if i, ok := args[0].(Iface); ok {
